@@ -2,7 +2,7 @@
    ToParameterizedPostgres returns (text, parameters), PostgreSQL reads from the text (placeholders numbered) one expression that,
    with the parameters bound, is true on exactly the rows on which the query is true. *)
 Require Import Parser Render Api PgModel QuerySem SqlSem SqlFrag SqlFragP Shape Build Printer.
-Require Lex LexWs.
+Require Lex LexWs LexWsG.
 Require Import PrintedText SqlSemProofP SqlLexP SqlEndToEndP.
 From Coq Require Import List Ascii String ZArith Bool Lia.
 Import ListNotations.
@@ -11,7 +11,7 @@ Theorem to_param_postgres_on_printed_fragment_query :
   forall (o : oracle) (o2 : oracle2) (cl : Lex.classes),
   (forall r, Lex.is_space r = true -> Lex.is_alnum cl r = false) ->
   forall (t : qt) (ts : list tok) (a : ast) (ps ps' : list value) (s : string),
-  wfq o t -> Forall (LexWs.lexes_alone cl) (map ltok (pr t)) ->
+  wfq o t -> Forall (LexWsG.lexes_clean cl) (map ltok (pr t)) ->
   trp (want o t) 1 = Some (ts, a, ps) ->
   side (want o t) = true -> names_ok (want o t) = true -> (Z.of_nat (1 + pcount (want o t)) < 1000000000)%Z ->
   Api.to_param_postgres o o2 cl "" (text_of (pr t)) = Ret (s, ps', None) ->
